@@ -58,6 +58,9 @@ func placementCases(r *core.Run, base []feCase) []feCase {
 	return out
 }
 
+var attrJoinRe = regexp.MustCompile(`([;{}])\n[ \t]*\[`)
+var memberJoinRe = regexp.MustCompile(`;\n[ \t]+([A-Za-z0-9])`)
+
 type textPert struct {
 	name, layout string
 	f            func(string) string
@@ -107,6 +110,8 @@ func textPerturbations() []textPert {
 		{"newline-before-array-suffix", "canonical", all("[]", "\n[]")},
 		{"semicolon-after-close-curly", "canonical", all("}\n", "};\n")},
 		{"double-semicolon", "canonical", all(";", ";;")},
+		{"attribute-joins-previous-line", "canonical", func(t string) string { return attrJoinRe.ReplaceAllString(t, "$1 [") }},
+		{"member-joins-previous-line", "canonical", func(t string) string { return memberJoinRe.ReplaceAllString(t, "; $1") }},
 		{"first-comment-doubled-slashes", "canonical", first("//", "////")},
 		{"block-comment-unterminated-star", "canonical", first("*/", "**/")},
 	}
